@@ -25,6 +25,7 @@ EXPLANATION = (
     "msgpack produces; golden corpus."
     " Also decided (rules added after the fifth blind round): (R2.7) every element typedlist._pack writes is the packed form of a value of the element type."
     " Rules added after the sixth blind round: (R2.8) RecordDescriptor._unpack hands name and field list to the constructor unchanged; (R2.9) no _pack method of a field type stores an attribute on the value it packs."
+    " Rules added after the seventh blind round: (R2.10 = R3.8 of C03) GroupedRecord.__init__ appends a member and its descriptor as a pair, so the descriptor tuple a grouped record is packed with describes exactly its members."
 )
 RULE_SUMMARY = "instances: format facts resolved at their points of use; non-trivial = required folding through names/partials or a dataflow walk"
 
